@@ -56,11 +56,13 @@ pub fn run(ctx: &Ctx, rep: &mut Report) {
     }
     // ---- decode: every byte string of length <= 3, a few longer
     {
-        let n = mccore::strings_upto_count(256, 3) + 6;
+        // thorough (one configuration): every string of four bytes too - all of them must be refused
+        let maxlen = if ctx.thorough() && ctx.config == "oc" { 4 } else { 3 };
+        let n = mccore::strings_upto_count(256, maxlen) + 6;
         let longer: [&[u8]; 6] = [&[0, 0, 0, 0], &[1, 0, 0, 0], &[0, 0, 0, 1, 0], &[0xFF; 4], &[0xFF; 8], &[0, 0, 0, 0, 0, 0, 0, 0, 1]];
-        let base = mccore::strings_upto_count(256, 3);
-        ctx.family(rep, "decode-strings", "every byte string of length 0..=3 (and six longer ones): Ok with the RFC triple, or Err; never a silently different value", n, true, |i, rep| {
-            let s: Vec<u8> = if i < base { mccore::string_at(i, 256, 3).iter().map(|x| *x as u8).collect() } else { longer[(i - base) as usize].to_vec() };
+        let base = mccore::strings_upto_count(256, maxlen);
+        ctx.family(rep, "decode-strings", &format!("every byte string of length 0..={} (and six longer ones): Ok with the RFC triple, or Err; never a silently different value", maxlen), n, true, |i, rep| {
+            let s: Vec<u8> = if i < base { mccore::string_at(i, 256, maxlen).iter().map(|x| *x as u8).collect() } else { longer[(i - base) as usize].to_vec() };
             let case = || Json::obj().set("bytes", hex(&s));
             let r = guard(|| BlockValue::try_from(s.clone()).ok().map(|v| (v.num, v.more, v.size_exponent)));
             let rfc = rb::dec(&s); // None for > 3 bytes
